@@ -628,8 +628,18 @@ func runC12(sc *C12Script) *sim.Outcome {
 	}
 	// not stuck: a fresh honest run with equal secrets succeeds on both sides
 	r.settle()
-	m.fromR(m.R.SendOpts(nil, ref.DataOpts{Flags: 1, TLVs: []ref.TLV{ref.SMPTLV(ref.TLVSMPAbort, nil)}}))
-	r.settle()
+	mix := len(sc.Steps)
+	for _, st := range sc.Steps {
+		mix += st.F + st.V + st.X
+	}
+	if r.sh.state == "e1" && !r.blind && mix%2 == 0 {
+		// by the specification's state machine the victim is idle again (it aborted or finished whatever was going on):
+		// the peer starts afresh without announcing an abort first
+		o.Class("fresh-run-without-abort")
+	} else {
+		m.fromR(m.R.SendOpts(nil, ref.DataOpts{Flags: 1, TLVs: []ref.TLV{ref.SMPTLV(ref.TLVSMPAbort, nil)}}))
+		r.settle()
+	}
 	m.R.SMPPassive = false
 	nEv := len(m.A.SMP)
 	m.asked = false
